@@ -16,6 +16,10 @@ CONDS = [
     Cond('parsed_ns_ok', 'XHTML+SVG+xlink document parsed by lxml-xml and html5lib x 7 prefix maps (none, empty, matching, '
          'default=XHTML, default=SVG, swapped, colliding prefix) x 14 selectors against expected id sets',
          'enumerated by symbolic index', timeout={'quick': 100, 'thorough': 300}),
+    Cond('mixed_ns_ok', 'a non-XHTML XML document mixing four namespaces and none: namespace tests combined with HTML-only '
+         'pseudo-classes (which match nothing there) and lists whose members have no type selector, under 8 prefix maps incl. '
+         'default entries: select / match / filter == reference predicate', '20 selectors x 8 maps x 3 entry points',
+         timeout={'quick': 60, 'thorough': 300}),
 ]
 
 
